@@ -208,6 +208,8 @@ class Interp:
         finally:
             self.depth -= 1
             self.stack.pop()
+        if '__tainted__' in env and (sig is None or sig[0] == 'return'):
+            return env['__tainted__']
         if sig is None:
             return None
         if sig[0] == 'return':
@@ -395,8 +397,23 @@ class Interp:
             return None
         # unknown condition: everything assigned in either branch is unknown
         e1, e2 = fork(env), fork(env)
-        self.block(st.body, e1, mod)
-        self.block(st.orelse, e2, mod)
+        s1 = self.block(st.body, e1, mod)
+        s2 = self.block(st.orelse, e2, mod)
+        def leaves(sg):
+            return sg is not None and sg[0] in ('return', 'raise')
+        if leaves(s1) and leaves(s2):
+            if s1[0] == 'return' and s2[0] == 'return':
+                return ('return', merge_val(s1[1], s2[1], None, st))
+            return s1 if s1[0] == 'return' else s2
+        if leaves(s1) or leaves(s2):
+            # one arm leaves the function under a condition the analysis cannot decide: go on with the other arm,
+            # but whatever the function finally returns is unknown
+            env['__tainted__'] = Unk('the function may already have returned under an undecided condition', st)
+            go = e2 if leaves(s1) else e1
+            for k_ in list(go):
+                if not k_.startswith('__'):
+                    env[k_] = go[k_]
+            return None
         merge_env(env, e1, e2, None, st)
         return None
 
@@ -441,6 +458,8 @@ class Interp:
             return itv.elem
         if isinstance(itv, Arr) and itv.ndim >= 1 and itv.dims[0]:
             return Arr(itv.dims[1:], itv.poly, itv.mask, itv.unit)       # generic element (label stays free)
+        if isinstance(itv, _WhereIdx):
+            return Pinned(itv.mask.dims[0], itv.mask.poly)
         if isinstance(itv, _Range):
             return Pinned(itv.label) if itv.label else None
         if isinstance(itv, _Enumerate):
@@ -448,6 +467,8 @@ class Interp:
             if isinstance(inner, list):
                 return [(i, v) for i, v in enumerate(inner)]
             lab = itv.label
+            if isinstance(itv.inner, _WhereIdx) and inner is not None:
+                return (Pinned(itv.inner.sel_label()), inner)      # counter within the selection, position on the axis
             if inner is not None and lab:
                 return (Pinned(lab), inner)
         return None
@@ -461,6 +482,10 @@ class Interp:
             if isinstance(val, (tuple, list)) and len(val) == len(t.elts):
                 for tt, v in zip(t.elts, val):
                     self.store(tt, v, env, mod)
+            elif isinstance(val, Arr) and val.ndim >= 1 and val.mask is None and val.dims[0]:
+                # a, b = x : element k of the first axis (python raises unless the length matches)
+                for k, tt in enumerate(t.elts):
+                    self.store(tt, Arr(val.dims[1:], alg.mk_fn('at', B(val.dims[0], val.poly), P(num(k))), unit=val.unit), env, mod)
             else:
                 for tt in t.elts:
                     self.store(tt, val if isinstance(val, Unk) else Unk('cannot unpack %r' % (val,), t), env, mod)
@@ -591,6 +616,7 @@ class Interp:
         cond = Poly.const(1)
         cur_dims = list(old.dims)
         shifts = []       # (label, k): value stored at running index + k
+        scatters = []     # (label, index poly): A[idx] = v
         for sub in reversed(chain_nodes):
             idx = sub.slice.elts if isinstance(sub.slice, ast.Tuple) else [sub.slice]
             ax = 0
@@ -637,6 +663,9 @@ class Interp:
                     shift_store = -k
                     shifts.append((lab, shift_store))
                     ax += 1
+                elif isinstance(v, Arr) and v.ndim == 1 and not _is_boolean(v.poly) and lab is not None and v.dims == (lab,):
+                    scatters.append((lab, v.poly))
+                    new_dims.append(cur_dims[ax]); ax += 1
                 elif isinstance(v, int) and not isinstance(v, bool):
                     self.positional.append((lab, v, mod.path, sub.lineno))
                     if lab is not None and self._in_generic_loop_over(lab, env):
@@ -670,6 +699,8 @@ class Interp:
         for lab, k in shifts:
             vp = alg.shift_index(vp, lab, k)
             cond = alg.shift_index(cond, lab, k)
+        for lab, ip in scatters:
+            vp = alg.mk_fn('at', B(lab, vp), P(alg.array_fn('invperm', lab, ip)))
         if old.unit is not None and v.unit is not None and not (old.unit == v.unit) and not (vp.is_const()):
             pass    # astropy converts on assignment; value semantics unchanged
         newp = old.poly + cond * (vp - old.poly)
@@ -1162,7 +1193,7 @@ class Interp:
                 if lo is None and hi is None and stp is None:
                     dims.append(lab)
                 elif lo is None and hi is None and stp == -1:
-                    poly = alg.mk_fn('rev', B(lab, poly))
+                    poly = alg.array_fn('rev', lab, poly)
                     dims.append(lab)
                 elif stp is None and lo == 1 and hi is None and lab:
                     poly = alg.relabel(poly, lab, lab + '~', '@+1'); dims.append(lab + '~')
@@ -1173,8 +1204,9 @@ class Interp:
                     if any(isinstance(x, Unk) for x in sl):
                         return Unk('slice bounds', e)
                     args = [C(None) if x is None else P(x.poly) for x in sl]
-                    poly = alg.mk_fn('slice', B(lab, poly), *args)
-                    dims.append('%s[%s]' % (lab, ':'.join('' if x is None else alg.show(x.poly, 200) for x in sl)))
+                    newlab = '%s[%s]' % (lab, ':'.join('' if x is None else alg.show(x.poly, 200) for x in sl))
+                    poly = alg.array_fn('slice', lab, poly, *args, out=newlab)
+                    dims.append(newlab)
                 ax += 1
                 continue
             if w is None:         # np.newaxis / None
@@ -1186,6 +1218,14 @@ class Interp:
                 return Unk('too many indices in %s' % up(e), e)
             lab = v.dims[ax]
             if isinstance(w, Pinned):
+                if isinstance(w.label, str) and w.label.startswith('sel:'):
+                    # the k-th element of a boolean selection: only meaningful in the selection it counts
+                    if mask is None or ('sel:' + alg.show(mask, 400)) != w.label:
+                        raise LabelClash('counter of the selection %s used to index %s in %s' % (w.label[4:][:80], ('the selection ' + alg.show(mask, 80)) if mask is not None else 'an unselected array', up(e)))
+                    poly = _under_mask(poly, mask)
+                    mask = None
+                    ax += 1
+                    continue
                 if lab != w.label:
                     raise LabelClash('index over axis %r used on axis %r in %s' % (w.label, lab, up(e)))
                 ax += 1
@@ -1375,13 +1415,25 @@ class Interp:
             if last == 'argsort':
                 x = self._as_arr(args[0])
                 if isinstance(x, Arr) and x.ndim == 1:
-                    return Arr(x.dims, alg.mk_fn('argsort', B(x.dims[0], x.poly)), unit=num(1))
+                    return Arr(x.dims, alg.array_fn('argsort', x.dims[0], x.poly), unit=num(1))
                 return Unk('argsort of %r' % (x,), e)
+            if last == 'flip' and args:
+                x = self._as_arr(args[0])
+                ax_ = kw.get('axis', args[1] if len(args) > 1 else None)
+                if isinstance(x, Arr):
+                    axes_ = list(range(x.ndim)) if ax_ is None else ([ax_ % x.ndim] if isinstance(ax_, int) and -x.ndim <= ax_ < x.ndim else None)
+                    if axes_ is not None:
+                        p_ = x.poly
+                        for a_ in axes_:
+                            if x.dims[a_]:
+                                p_ = alg.array_fn('rev', x.dims[a_], p_)
+                        return x.with_(poly=p_)
+                return Unk('np.flip', e)
             if last in ('sort', 'flip', 'cumsum', 'flipud', 'fliplr'):
                 x = self._as_arr(args[0])
                 if isinstance(x, Arr) and x.ndim == 1:
                     nm = 'rev' if last.startswith('flip') else last
-                    return x.with_(poly=alg.mk_fn(nm, B(x.dims[0], x.poly)))
+                    return x.with_(poly=alg.array_fn(nm, x.dims[0], x.poly))
                 return Unk('np.%s of %r' % (last, x), e)
             if last in ('multiply', 'add', 'subtract', 'divide', 'true_divide', 'power') and len(args) == 2:
                 opn = {'multiply': ast.Mult, 'add': ast.Add, 'subtract': ast.Sub, 'divide': ast.Div, 'true_divide': ast.Div, 'power': ast.Pow}[last]
@@ -1396,6 +1448,11 @@ class Interp:
                 if lab and len(args) == 1:
                     return Arr((lab,), alg.mk_fn('arange', L(lab)), unit=num(1))
                 return Unk('arange(%r)' % (n,), e)
+            if last in ('where', 'nonzero') and len(args) == 1:
+                m_ = self._as_arr(args[0])
+                if isinstance(m_, Arr) and m_.ndim == 1 and _is_boolean(m_.poly):
+                    return (_WhereIdx(m_),)
+                return Unk('np.where of %r' % (m_,), e)
             if last == 'where' and len(args) == 3:
                 c, a, b = [self._as_arr(x) for x in args]
                 if any(isinstance(x, Unk) for x in (c, a, b)):
@@ -1483,6 +1540,8 @@ class Interp:
                     return _Enumerate(x, x.label)
                 if isinstance(x, Arr) and x.ndim >= 1:
                     return _Enumerate(x, x.dims[0])
+                if isinstance(x, _WhereIdx):
+                    return _Enumerate(x, None)
                 return Unk('enumerate', e)
             if last in ('int', 'float'):
                 return self._int(args[0], e) if last == 'int' else (self._as_arr(args[0]) if not _is_pynum(args[0]) else float(args[0]))
@@ -1613,7 +1672,7 @@ class Interp:
             return Unk('array method %s' % name, e)
         if isinstance(recv, SymTable):
             if name == 'sort' and args and isinstance(args[0], str) and args[0] in recv.cols:
-                order = alg.mk_fn('argsort', B(recv.label, recv.cols[args[0]].poly))
+                order = alg.array_fn('argsort', recv.label, recv.cols[args[0]].poly)
                 for c, a in list(recv.cols.items()):
                     recv.cols[c] = a.with_(poly=alg.mk_fn('at', B(recv.label, a.poly), P(order)))
                 return None
@@ -1680,6 +1739,15 @@ def _linear_fn(name, q, lab, xp, fp, extra):
 class _Range:
     def __init__(self, label):
         self.label = label
+
+
+class _WhereIdx:
+    """np.where(mask)[0]: the positions selected by a boolean mask along one axis"""
+    def __init__(self, mask):
+        self.mask = mask           # Arr, 1-D boolean
+
+    def sel_label(self):
+        return 'sel:' + alg.show(self.mask.poly, 400)
 
 
 class _Enumerate:
